@@ -1,15 +1,23 @@
+import importlib.util, os
+_spec = importlib.util.spec_from_file_location("c17_go2lean", os.path.join(os.path.dirname(os.path.abspath(__file__)), "c17_go2lean.py"))
+_g2l = importlib.util.module_from_spec(_spec); _spec.loader.exec_module(_g2l)
+
 T = "GeomV.C17."
 CFG = {
     "id": "C17",
-    "lean_modules": ["GeomV.C17.Proofs"],
+    "lean_modules": ["GeomV.C17.Proofs", "GeomV.C17.Tie"],
+    "pregen": _g2l.pregen,
     "exe": "geomv_c17",
     "go_cmd": "c17",
     "stages": ["go:gen", "go:impl", "lean:judge"],
     "theorems": [T + n for n in ["C17_roundtrip", "C17_unsupported", "C17_guard_exact", "C17_guard_emitted",
-                                 "C17_numfmt_int", "C17_injective"]],
+                                 "C17_numfmt_int", "C17_injective",
+                                 "C17_tie_encode", "C17_roundtrip_src", "C17_unsupported_src"]],
     "trusted_base": [
         "Lean 4.33.0 kernel; axioms of every theorem printed by #print axioms must be within {propext, Classical.choice, Quot.sound}",
-        "model lean/GeomV/C17/Model.lean is tied to /repo/encoding/wkt by the correspondence run on every check: byte-exact comparison of "
+        "T1: lean/GeomV/C17/Gen.lean is regenerated from /repo/encoding/wkt/*.go on every run by checks/c17_go2lean.py (a ~250-line "
+        "translator for the statement forms that occur there; trusted, and exercised by T2) and proved equal to the model in Tie.lean",
+        "T2: model lean/GeomV/C17/Model.lean is tied to /repo/encoding/wkt by the correspondence run on every check: byte-exact comparison of "
         "wkt.Encode's output with the model's text, the model's number formatter being Go's own strconv 'g' rendering of each coordinate",
         "strconv.AppendFloat(x,'g',-1,64) satisfies the NumFmt contract (non-empty token over [0-9+-.eE] denoting exactly x for finite x): "
         "hypothesis of C17_roundtrip, instance proved for Int rendering (C17_numfmt_int), and checked at run time on every generated coordinate "
